@@ -83,8 +83,29 @@ func opNames(seq []int) []string {
 func c20SeqSub() *engine.Sub {
 	return &engine.Sub{
 		Name: "sequential-state-graph",
-		Rule: "explicit-state search: state = deep structural dump of the shared invocation and its two delegations (private fields via reflect/unsafe, slices in storage order, maps sorted); transitions = each of 26 read-only operations; all operation sequences up to the depth bound from every token variant (argument/metadata keys inserted in every order of 0..3 keys, constructed and decoded). Invariant in every state: the dump equals the initial dump (the reachable graph has one state per variant) and the operation's result equals its result when run alone on a fresh equal token; non-trivial = sequences of length >= 2",
-		Bound: func(t string) string { return fmt.Sprintf("20 token variants x all sequences of <=%d operations out of 26", tierN(t, 2, 3)) },
+		Rule: "explicit-state search: state = deep structural dump of the shared invocation and its two delegations (private fields via reflect/unsafe, slices in storage order, maps sorted); transitions = each of 27 read-only operations; all operation sequences up to the depth bound from every token variant (argument/metadata keys inserted in every order of 0..3 keys, constructed and decoded). Invariant in every state: the dump equals the initial dump (the reachable graph has one state per variant) and the operation's result equals its result when run alone on a fresh equal token; non-trivial = sequences of length >= 2",
+		Bound: func(t string) string { return fmt.Sprintf("20 token variants x all sequences of <=%d operations out of 27", tierN(t, 2, 3)) },
+		Setup: func(string) error {
+			// a fixture whose chain is denied before the policies are reached would make most of the
+			// alphabet vacuous: the plain checks must succeed and the violating hook must be refused by policy
+			for _, v := range c20ops.Variants() {
+				f := c20ops.NewFixture(v)
+				for _, op := range c20Ops {
+					r := op.Run(f, nil)
+					switch {
+					case op.Name == "inv.ExecutionAllowedWithArgsHook(violating)":
+						if !strings.Contains(r, "policy is not satisfied") {
+							return fmt.Errorf("harness: fixture %s: %s = %q, want a policy refusal", v, op.Name, r)
+						}
+					case strings.HasPrefix(op.Name, "inv.ExecutionAllowed"):
+						if r != "ok" {
+							return fmt.Errorf("harness: fixture %s: %s = %q, want ok", v, op.Name, r)
+						}
+					}
+				}
+			}
+			return nil
+		},
 		Gen: func(tier string, emit func(any) bool) {
 			d := tierN(tier, 2, 3)
 			for _, v := range c20ops.Variants() {
@@ -166,9 +187,9 @@ func c20SchedSub() *engine.Sub {
 		Rule: "cooperative scheduler: logical threads each run one read-only operation on the same shared tokens; scheduling points are the callback seams of the library (Loader.GetDelegation, the argument hook, every Write of the streaming encoders, every yield of Arguments().Iter / Meta().Iter). All schedules up to the preemption bound are enumerated (stateless DFS, prefix replay, divergence = hard error). Oracle: every thread's result equals its run-alone result on a fresh equal token and the final dump equals the initial dump; non-trivial = schedules with at least one context switch before a thread finished",
 		Bound: func(t string) string {
 			if t == "thorough" {
-				return "5 token variants x all ordered pairs of 26 operations with <=2 preemptions, and all ordered triples of 8 seam-bearing operations with <=1 preemption"
+				return "5 token variants x all ordered pairs of 27 operations with <=2 preemptions, and all ordered triples of 8 seam-bearing operations with <=1 preemption"
 			}
-			return "5 token variants x all ordered pairs of 26 operations with <=1 preemption"
+			return "5 token variants x all ordered pairs of 27 operations with <=1 preemption"
 		},
 		Gen: func(tier string, emit func(any) bool) {
 			for _, v := range c20SchedVariants() {
@@ -298,8 +319,8 @@ func c20RaceSub() *engine.Sub {
 		Name:    "race-detector-pairs",
 		Serial:  true,
 		Replays: 1, // each replay is a separate `go test -race` process; the detector's verdict is happens-before based
-		Rule:   "free-running pass: the same operation bodies, every unordered pair of the 26 operations (an operation with itself included) on 4 token variants, two goroutines released by a barrier, as sub-tests of `go test -race -tags verif ./racepass`, built from /repo's working tree. A sub-test the detector marks failed ('race detected during execution of test') is a violation attributed to that pair. The verdict is happens-before based, so it does not depend on the actual timing of the two goroutines; non-trivial = all pairs",
-		Bound:  func(string) string { return "351 unordered pairs x 4 variants + first-use of lazily built globals from 2 goroutines" },
+		Rule:   "free-running pass: the same operation bodies, every unordered pair of the 27 operations (an operation with itself included) on 4 token variants, two goroutines released by a barrier, as sub-tests of `go test -race -tags verif ./racepass`, built from /repo's working tree. A sub-test the detector marks failed ('race detected during execution of test') is a violation attributed to that pair. The verdict is happens-before based, so it does not depend on the actual timing of the two goroutines; non-trivial = all pairs",
+		Bound:  func(string) string { return "378 unordered pairs x 4 variants + first-use of lazily built globals from 2 goroutines" },
 		Gen: func(tier string, emit func(any) bool) {
 			emit(&c20RaceCase{})
 		},
